@@ -313,7 +313,7 @@ CHECKS["C07"] = dict(
 CHECKS["C05"] = dict(
     text=("Two ties. (G) harness/translate_quad.py CALLS the code's get_tri_quadratureDG/get_gauss_quadratureDG for every order and regenerates "
           "Gen/QuadTables.lean as exact rationals; Props/C05 re-proves on every run (decide +kernel, integers, no axioms; restated in Q as "
-          "tri_exact_rat/gauss_exact_rat) that every supported rule (triangular 1,4,8,10,12; gaussian 1..10) has weights summing to 1, positive "
+          "tri_exact_rat/gauss_exact_rat; default_rule_supported for the regenerated default arguments) that every supported rule (triangular 1,4,8,10,12; gaussian 1..10) has weights summing to 1, positive "
           "weights and integrates every monomial up to its degree (tri: order; gauss: 2n-1, n=9 is a Lobatto rule: 15) to 1e-12 in the coordinates "
           "the code evaluates - a changed digit in any order stops a theorem. (T) Lean theorems about the model Model/Area.lean (transcription of "
           "area.py, generic over the field) for ALL corner lists/tables/numberings: area_nonneg(_tables), area_face_local/area_renumber/"
